@@ -20,6 +20,7 @@ Scenario JSON (`case`): see `gen_case`.  Times are ms since simulation start.
 from __future__ import annotations
 
 import asyncio
+import functools
 import json
 import os
 import socket
@@ -39,7 +40,10 @@ ASSUMPTIONS = [
     "link: every datagram reaches every host that is up within 100 ms at least once, except the deliveries of one chosen datagram (K7)",
     "API discipline: services have unique names and one owner; update/unregister are issued on registered services; a host is closed "
     "no earlier than 400 ms after its last register/update call (after the call returned) and 300 ms after its last unregister (an application "
-    "awaiting the broadcast task that unregister returns); API calls on one service are at least 1 ms apart",
+    "awaiting the broadcast task that unregister returns; the family unregister-then-close generates the un-awaited case, a known finding); "
+    "API calls on one service are at least 1 ms apart",
+    "one medium per scenario: all hosts IPv4-only, all IPv6-only (link-local, one scope id) or all dual-stack (every multicast leaves twice); "
+    "links that mix IPv4-only and IPv6-capable hosts are not generated (K7 knows one medium)",
     "single loss = ONE datagram (any subset of its deliveries, up to all of them); observation horizons up to 2.5 virtual hours with "
     "PTR TTLs of 120-9000 s (expiry and refresh are in scope: K3b, KF)",
 ]
@@ -48,6 +52,8 @@ TYPES = ["_a._tcp.local.", "_b._tcp.local.", "_c._udp.local."]
 SETTLE_MS = 16000  # the theorem's bound
 WAIT_MS = 30000  # what the oracle waits (>= settle)
 MDNS = vsim.MDNS_ADDR
+MDNS6 = "ff02::fb"
+SCOPE = 3  # scope id of the simulated link on every IPv6 socket
 
 CFG = dict(ann=[350, 575, 800], upd=[0, 225, 450], bye=[0, 125, 250], maxDelay=100, qLo=20, qHi=120,
            qOff=[0, 1000, 5000, 14000], dupQ=999, respBefore=1000, respAfter=1200, regDelay=350,
@@ -198,9 +204,121 @@ def gen_unreg_close_family(rng):
             "net": {"seed": rng.randrange(1 << 30), "mode": rng.choice(["uniform", "extreme", "mixed"]), "drop": None, "dups": "none"}}
 
 
+STACKS = ["4", "4", "4", "6", "46"]
+CROSS_P = 0.02  # how often a party spells a type differently from the others (known finding: the browser matches types case-sensitively)
+
+
+def draw_tcase(rng, ntypes, p=0.5):
+    """the spelling of every type in a scenario (bit 0 of a `case`): 0 = `_a._tcp.local.`, 1 = `_A._tcp.local.`"""
+    return [1 if rng.random() < p else 0 for _ in range(ntypes)]
+
+
+def svc_case(rng, tcase, ty, p_label=0.4):
+    """a service's `case`: bit 0 the scenario's spelling of its type (another one with probability CROSS_P), bits 1 / 2 an
+    upper-case instance label / host name"""
+    k = tcase[ty] ^ (1 if rng.random() < CROSS_P else 0)
+    if rng.random() < p_label:
+        k |= rng.choice([2, 4, 6])
+    return k
+
+
+def browse_op(rng, t, h, tys, tcase):
+    """[t, "browse", h, type | [types...], {"cases": [spelling per type]}]"""
+    cases = [tcase[ty] ^ (1 if rng.random() < CROSS_P else 0) for ty in (tys if isinstance(tys, list) else [tys])]
+    return [t, "browse", h, tys] + ([{"cases": cases}] if any(cases) else [])
+
+
+def link_variant(rng, case, p=0.4):
+    """socket topology of the hosts (one medium per scenario, see ASSUMPTIONS): "4" one IPv4 socket (the default of every earlier
+    case), "6" one IPv6 socket (link-local source, 4-tuple deliveries, ff02::fb), "46" both (every multicast leaves twice and is heard
+    twice, by two listeners); `listen`: a dedicated listen socket next to the respond socket, as `create_sockets` builds unless
+    unicast=True (multicast arrives on the listen socket, unicast on the respond socket, replies leave through the receiving one)"""
+    if rng.random() < p:
+        case["stack"] = rng.choice(STACKS)
+        if case["stack"] != "46" and rng.random() < 0.4:
+            case["listen"] = True
+    return case
+
+
+def gen_vocab_family(rng):
+    """review escapes 2-4: names and topologies outside lower-case / one type per browser / one IPv4 socket.  A host that comes up
+    after the announcements (so that its browser depends on its questions being answered) browses several types with ONE
+    AsyncServiceBrowser; types, instance labels and host names are spelled in mixed case, the browser's spelling need not be the
+    registration's"""
+    nh = rng.choice([2, 3])
+    ntypes = rng.choice([2, 3])
+    late = rng.choice([1500, 3000, rng.randint(1200, 6000)])
+    hosts = [{"up": 0}, {"up": late}] + ([{"up": rng.choice([0, 0, late + 500])}] if nh == 3 else [])
+    nsvc = rng.randint(2, 5)
+    tcase = draw_tcase(rng, ntypes, 0.6)
+    svcs, ops = [], []
+    for i in range(nsvc):
+        ty = i % ntypes if i < ntypes else rng.randrange(ntypes)
+        svcs.append({"owner": 0 if (i < 2 or nh == 2) else rng.choice([0, 2]), "ty": ty, "case": svc_case(rng, tcase, ty, 0.6)})
+        if rng.random() < 0.25:
+            svcs[-1]["ip"] = rng.choice(["v6", "dual"])
+        ops.append([hosts[svcs[-1]["owner"]]["up"] + rng.randint(0, 600), "register", i])
+    tys = sorted(rng.sample(range(ntypes), rng.choice([2, ntypes])))
+    ops.append(browse_op(rng, late + rng.choice([0, 1, 300]), 1, tys, tcase))
+    if nh == 3:
+        ops.append(browse_op(rng, hosts[2]["up"] + rng.randint(0, 2000), 2, rng.choice([rng.randrange(ntypes), list(range(ntypes))]), tcase))
+    if rng.random() < 0.4:
+        ops.append(browse_op(rng, rng.randint(0, 500), 0, list(range(ntypes)), tcase))
+    k = rng.random()
+    if k < 0.3:
+        ops.append([late + rng.choice([2000, 6000, rng.randint(500, 9000)]), "unregister", rng.randrange(nsvc)])
+    elif k < 0.5:
+        ops.append([late + rng.choice([2000, 6000, rng.randint(1500, 9000)]), "close", 0])
+    ops.sort(key=lambda o: (o[0], o[1]))
+    case = {"simseed": rng.randrange(1 << 30), "hosts": hosts, "types": ntypes, "svcs": svcs, "ops": ops, "family": "vocabulary",
+            "net": {"seed": rng.randrange(1 << 30), "mode": rng.choice(["uniform", "extreme", "mixed"]), "drop": None,
+                    "dups": rng.choice(["none", "none", "some"])}}
+    return link_variant(rng, case, 0.6)
+
+
+def gen_multipacket_family(rng):
+    """review escape 5: messages that need more than one datagram.  One host owns 2-6 services whose TXT records have 300-900 bytes
+    (inside the property's 1..6 services) or 21-32 small services of one type (outside it: the size at which the library's answer to a
+    browser no longer fits 1460 bytes).  A browser on a host that comes up after the announcements gets its answer as a train of
+    packets (PTRs first, SRV / TXT / address records spilling into the next ones); the owner is then closed (ONE goodbye message for all
+    its services = a train of packets, three times) or left running"""
+    nh = rng.choice([2, 3, 3])
+    if rng.random() < 0.65:
+        nsvc = rng.choice([2, 3, 4, 6])
+        svcs = [{"owner": 0, "ty": 0, "txt": rng.choice([300, 600, 900, rng.randint(200, 900)])} for _ in range(nsvc)]
+        if nsvc * 600 < 1500:
+            svcs[0]["txt"] = 900
+            svcs[1]["txt"] = 900
+    else:
+        nsvc = rng.randint(21, 32)
+        svcs = [{"owner": 0, "ty": 0} for _ in range(nsvc)]
+    hosts = [{"up": 0} for _ in range(nh)]
+    ops, t = [], rng.choice([0, 1, 200])
+    for i in range(nsvc):
+        ops.append([t, "register", i])
+        t += rng.choice([1, 10, 10, 50])
+    done = t + 350 + 450 + 100
+    ops.append([rng.choice([0, 100, done + 1200]), "browse", 1, 0])
+    end = done
+    if nh == 3:
+        hosts[2]["up"] = done + rng.choice([300, 1500, 3000])
+        ops.append([hosts[2]["up"] + rng.choice([0, 1, 200]), "browse", 2, 0])
+        end = hosts[2]["up"]
+    if rng.random() < 0.7:
+        ops.append([end + rng.choice([2000, 6000, 16000, rng.randint(1500, 16000)]), "close", 0])
+    ops.sort(key=lambda o: (o[0], o[1]))
+    case = {"simseed": rng.randrange(1 << 30), "hosts": hosts, "types": 1, "svcs": svcs, "ops": ops, "family": "multi-packet",
+            "net": {"seed": rng.randrange(1 << 30), "mode": rng.choice(["uniform", "extreme", "mixed"]), "drop": None, "dups": "none"}}
+    return link_variant(rng, case, 0.25)
+
+
 def gen_case(rng, idx=0, long_p=0.05):
     if idx == 6 or (idx > 6 and rng.random() < 0.02):
         return gen_unreg_close_family(rng)
+    if idx in (7, 8, 9) or (idx > 9 and rng.random() < 0.08):
+        return gen_vocab_family(rng)
+    if idx in (10, 11) or (idx > 11 and rng.random() < 0.03):
+        return gen_multipacket_family(rng)
     # the first scenarios of every run are long-horizon ones (cycling through the families), then each with probability long_p
     if idx < 6:
         c = [gen_flap_family, gen_late_browser_family, gen_mixed_ttl_family][idx % 3](rng)
@@ -228,12 +346,16 @@ def gen_case(rng, idx=0, long_p=0.05):
     last_reg_on_host = {}
     last_unreg_on_host = {}
     svcs = []
+    tcase = draw_tcase(rng, ntypes, 0.5 if rng.random() < 0.4 else 0.0)  # 40 % of the scenarios have types in mixed case
     for s in range(nsvc):
         owner = rng.randrange(nh)
         ty = rng.randrange(ntypes)
         svcs.append({"owner": owner, "ty": ty})
         if rng.random() < 0.25:
             svcs[-1]["ip"] = rng.choice(["v6", "v6", "dual"])  # IPv6-only / dual-stack services
+        k = svc_case(rng, tcase, ty, 0.25)  # mixed-case type / instance label / host name
+        if k:
+            svcs[-1]["case"] = k
         t = hosts[owner]["up"] + rng.choice([0, 1, rng.randint(0, 400), rng.randint(0, 4000), rng.randint(0, 8000)])
         ops.append([t, "register", s])
         last_reg_on_host[owner] = max(last_reg_on_host.get(owner, 0), t)
@@ -264,7 +386,9 @@ def gen_case(rng, idx=0, long_p=0.05):
         h = rng.randrange(nh)
         ty = rng.randrange(ntypes)
         t = hosts[h]["up"] + rng.choice([0, 0, rng.randint(0, 300), rng.randint(0, 2000), rng.randint(0, 9000)])
-        ops.append([t, "browse", h, ty])
+        if ntypes > 1 and rng.random() < 0.3:  # one browser object for several types
+            ty = sorted(rng.sample(range(ntypes), rng.randint(2, ntypes)))
+        ops.append(browse_op(rng, t, h, ty, tcase))
     if nh > 2 and rng.random() < 0.35:
         h = rng.randrange(nh)
         t = max(hosts[h]["up"] + rng.randint(500, 7000), last_reg_on_host.get(h, -400) + 400 + rng.choice([0, 1, rng.randint(0, 3000)]),
@@ -274,7 +398,7 @@ def gen_case(rng, idx=0, long_p=0.05):
     ops.sort(key=lambda o: (o[0], o[1]))
     mode = rng.choice(["uniform", "extreme", "mixed", "mixed"])
     net = {"seed": rng.randrange(1 << 30), "mode": mode, "drop": None, "dups": "none" if rng.random() < 0.5 else rng.choice(["some", "many"])}
-    return {"simseed": rng.randrange(1 << 30), "hosts": hosts, "types": ntypes, "svcs": svcs, "ops": ops, "net": net}
+    return link_variant(rng, {"simseed": rng.randrange(1 << 30), "hosts": hosts, "types": ntypes, "svcs": svcs, "ops": ops, "net": net})
 
 
 def _op_host(o, svcs):
@@ -353,8 +477,57 @@ TYPE_IDX = {t: i for i, t in enumerate(TYPES)}
 SVC_TY = {}
 
 
-def svc_name(i, ty):
-    return "s%d.%s" % (i, TYPES[ty])
+def spell_type(ty, k=0):
+    """spelling variant k of type ty: bit 0 = the service-name label in upper case (`_A._tcp.local.`).  The protocol and domain labels
+    stay lower-case: the library's own validator (`service_type_name`) accepts `._tcp.local.` / `._udp.local.` only in that spelling"""
+    t = TYPES[ty]
+    if k & 1:
+        lab, rest = t.split(".", 1)
+        t = lab.upper() + "." + rest
+    return t
+
+
+def svc_name(i, ty, k=0):
+    """instance name; bit 1 of k = upper-case instance label"""
+    return ("S%d." if k & 2 else "s%d.") % i + spell_type(ty, k)
+
+
+def host_name(h, k=0):
+    """SRV target; bit 2 of k = upper-case host label"""
+    return ("H%d.local." if k & 4 else "h%d.local.") % h
+
+
+class Sock6(vsim.FakeSock):
+    def __init__(self, fileno, addr):
+        super().__init__(fileno, addr)
+        self.family = socket.AF_INET6
+
+
+def make_host(sim, name, idx, stack="4", listen=False):
+    """a host with one socket per character of `stack` ('4' = AF_INET bound to 10.0.0.n, '6' = AF_INET6 bound to fe80::n%SCOPE) and,
+    with `listen`, a dedicated listen socket (readers = [listen, respond...], senders = [respond...])"""
+    from unittest import mock
+
+    from zeroconf import Zeroconf
+    import zeroconf._core as core
+
+    host = vsim.Host(sim, name, "10.0.0.%d" % (idx + 1))
+    host.ip6 = "fe80::%x" % (idx + 1)
+    host.stack = stack
+    base = 10 + 4 * len(sim.net.hosts)
+    socks = []
+    for j, fam in enumerate(stack):
+        socks.append(vsim.FakeSock(base + j, (host.ip, 5353)) if fam == "4" else Sock6(base + j, (host.ip6, 5353, 0, SCOPE)))
+    lsock = None
+    if listen:
+        lsock = vsim.FakeSock(base + 3, ("0.0.0.0", 5353)) if stack == "4" else Sock6(base + 3, ("::", 5353, 0, 0))
+        host.lsock = lsock
+    for sk in socks + ([lsock] if lsock is not None else []):
+        vsim._sock_host[id(sk)] = host
+    host.sock = socks[0]
+    with mock.patch.object(core, "create_sockets", lambda *a, **k: (lsock, socks)):
+        host.zc = Zeroconf(interfaces=[host.ip])
+    return host
 
 
 def all_addresses(info):
@@ -372,6 +545,8 @@ def run_case(case):
     plan = Plan(case["net"])
     svcs = [dict(sv) for sv in case["svcs"]]  # (an `update` op may change a service's TTLs)
     names = {svc_name(i, s["ty"]).lower(): i for i, s in enumerate(svcs)}
+    stack = case.get("stack", "4")
+    listen = bool(case.get("listen"))
     SVC_TY.clear()
     SVC_TY.update({i: s["ty"] for i, s in enumerate(svcs)})
     trace = []  # abstract events
@@ -385,10 +560,14 @@ def run_case(case):
     sstate = ["idle"] * len(svcs)  # idle | registering | registered
     versions = [[] for _ in svcs]  # advertised (t, port, txt, server, addr)
     cur_info = [None] * len(svcs)
-    browsers = []
+    browsers = []  # one entry per (browser object, type): the link model's browsers have one type each
+    real_browsers = []
     lookups = []
     skipped = []
     api_times = []
+    unreg_calls = []  # [t, svc]: explicit async_unregister_service calls (never awaited by this harness)
+    close_unregs = []  # [t, svc, host]: services still registered when their host is closed (withdrawn by async_close itself)
+    net.refused = []
     drop = case["net"].get("drop")
     drop_dgram = None
     if isinstance(drop, dict):  # {"dgram": send index, "mode": "all" | "remote"}
@@ -403,22 +582,30 @@ def run_case(case):
             it = memo[data] = abstract(data, names)
         return it
 
-    def net_send(src, data, addr):
+    def net_send(src, data, addr, fam=None):
         t = now()
         d = len(net.log)
         net.log.append((t, src.name, addr[0], addr[1], data))
+        v6 = ":" in addr[0]
+        if fam is None:
+            fam = 6 if v6 else 4
+        if v6 != (fam == 6) or (v6 and (addr[0] == MDNS6 or addr[0].lower().startswith("fe80")) and (len(addr) < 4 or addr[3] != SCOPE)):
+            # what the OS refuses: a destination of the other address family, a link-local / multicast IPv6 destination without
+            # the link's scope id.  Nothing leaves the host (and nothing enters the trace: a `send` is a datagram on the link)
+            net.refused.append([t, src.idx, d, list(addr)])
+            return
         items = ab(data)
-        mc = addr[0] == MDNS
+        mc = addr[0] in (MDNS, MDNS6)
         dst = None
         if not mc:
             for h in net.hosts:
-                if h.ip == addr[0]:
+                if addr[0] == (h.ip6 if fam == 6 else h.ip):
                     dst = h.idx
             if dst is None:
                 dst = 99
         trace.append([t, "send", src.idx, d, dst, items])
         for h in net.hosts:
-            if mc or h.ip == addr[0]:
+            if str(fam) in h.stack and (mc or addr[0] == (h.ip6 if fam == 6 else h.ip)):
                 i = net.n
                 net.n += 1
                 net.targets.append([i, d, h.idx, t])
@@ -430,40 +617,59 @@ def run_case(case):
                     # other host ("remote": on the wire, the sender still hears itself)
                     net.dropped = ["dgram", d, drop_dgram.get("mode", "all")]
                     continue
-                sim.loop.call_later(plan.delay(i) / 1000.0, deliver, h, d, src, mc, data, items)
+                sim.loop.call_later(plan.delay(i) / 1000.0, deliver, h, d, src, mc, data, items, fam)
                 if plan.dup(i):
-                    sim.loop.call_later(plan.delay(i, "d2") / 1000.0, deliver, h, d, src, mc, data, items)
+                    sim.loop.call_later(plan.delay(i, "d2") / 1000.0, deliver, h, d, src, mc, data, items, fam)
 
-    def deliver(h, d, src, mc, data, items):
-        if h.transport is None or h.transport.closed or hstate[h.idx] != "up":
+    def deliver(h, d, src, mc, data, items, fam=4):
+        # multicast arrives on the dedicated listen socket when the host has one, everything else on the socket of its family
+        tr = h.ltransport if (mc and h.ltransport is not None) else h.by_fam.get(fam)
+        if tr is None or tr.closed or hstate[h.idx] != "up":
             return
         trace.append([now(), "dlv", d, src.idx, h.idx, 1 if mc else 0, items])
-        h.transport.protocol.datagram_received(data, (src.ip, src.port))
+        tr.protocol.datagram_received(data, (src.ip, src.port) if fam == 4 else (src.ip6, src.port, 0, SCOPE))
+
+    def sendto(h, tr, data, addr=None):
+        if tr.closed:
+            sim.sends_after_close.append((now(), h.name, bytes(data), addr))
+            return
+        net_send(h, bytes(data), addr, 6 if tr.sock.family == socket.AF_INET6 else 4)
 
     net.send = net_send
 
     class L(ServiceListener):
-        def __init__(self, b, zc):
-            self.b = b
+        """the listener of ONE browser object; a browser for several types is several browsers of the link model (`b_of`)"""
+
+        def __init__(self, zc):
             self.zc = zc
-            self.live = set()
+            self.b_of = {}  # type index -> model browser
+            self.live = {}  # name as reported -> model browser
             self.bad = []
+
+        def _b(self, t, n, what):
+            b = self.b_of.get(TYPE_IDX.get(t.lower()))
+            if b is None:
+                self.bad.append([what + "-for-a-type-not-browsed", n, now()])
+                b = min(self.b_of.values())
+            return b
 
         def add_service(self, zc, t, n):
             s = names.get(n.lower())
+            b = self._b(t, n, "add")
             if n in self.live:
                 self.bad.append(["double-add", n, now()])
-            self.live.add(n)
-            trace.append([now(), "add", self.b, s if s is not None else -1])
+            self.live[n] = b
+            trace.append([now(), "add", b, s if s is not None else -1])
             if s is not None:
-                asyncio.ensure_future(lookup(self.b, zc, t, n, s))
+                asyncio.ensure_future(lookup(b, zc, t, n, s))
 
         def remove_service(self, zc, t, n):
             s = names.get(n.lower())
+            b = self._b(t, n, "remove")
             if n not in self.live:
                 self.bad.append(["remove-without-add", n, now()])
-            self.live.discard(n)
-            trace.append([now(), "rem", self.b, s if s is not None else -1])
+            self.live.pop(n, None)
+            trace.append([now(), "rem", b, s if s is not None else -1])
 
         def update_service(self, zc, t, n):
             pass
@@ -481,7 +687,6 @@ def run_case(case):
     def make_info(i, ver):
         s = svcs[i]
         h = hosts[s["owner"]]
-        ty = TYPES[s["ty"]]
         kw = {}
         if s.get("other_ttl") is not None:
             kw["other_ttl"] = s["other_ttl"]  # TTL of the PTR (and TXT) record
@@ -492,8 +697,12 @@ def run_case(case):
             addrs = [socket.inet_pton(socket.AF_INET6, "2001:db8::%x" % (s["owner"] + 1))]
         elif s.get("ip") == "dual":
             addrs.append(socket.inet_pton(socket.AF_INET6, "2001:db8::%x" % (s["owner"] + 1)))
-        return ServiceInfo(ty, svc_name(i, s["ty"]), 8000 + 10 * i + ver, addresses=addrs,
-                           server="h%d.local." % s["owner"], properties={"k": "v%d" % ver, "i": str(i)}, **kw)
+        k = s.get("case", 0)
+        props = {"k": "v%d" % ver, "i": str(i)}
+        for j in range(0, s.get("txt", 0), 200):  # a TXT record of about `txt` bytes (items of at most 255)
+            props["p%d" % (j // 200)] = "x" * min(194, s["txt"] - j)
+        return ServiceInfo(spell_type(s["ty"], k), svc_name(i, s["ty"], k), 8000 + 10 * i + ver, addresses=addrs,
+                           server=host_name(s["owner"], k), properties=props, **kw)
 
     def advertise(i, info):
         versions[i].append({"t": now(), "port": info.port, "server": info.server, "txt": info.text.hex(),
@@ -501,10 +710,15 @@ def run_case(case):
 
     async def host_up(i):
         await sim.sleep_until(case["hosts"][i]["up"])
-        h = sim.make_host("H%d" % i, "10.0.0.%d" % (i + 1))
+        h = make_host(sim, "H%d" % i, i, stack, listen)
         h.idx = i
         hosts[i] = h
         await h.zc.async_wait_for_start()
+        h.by_fam = {}
+        for tr in h.transports:  # (nothing is sent before the engine has started)
+            tr.sendto = functools.partial(sendto, h, tr)
+            if tr is not h.ltransport:
+                h.by_fam[6 if tr.sock.family == socket.AF_INET6 else 4] = tr
         hstate[i] = "up"
         trace.append([now(), "up", i])
         api_times.append(now())
@@ -518,16 +732,22 @@ def run_case(case):
                 break
             await asyncio.sleep(0)
         if kind == "browse":
-            h, ty = op[2], op[3]
+            h, tys = op[2], (op[3] if isinstance(op[3], list) else [op[3]])
+            opt = op[4] if len(op) > 4 and isinstance(op[4], dict) else {}
             if hstate[h] != "up":
                 skipped.append(op)
                 return
-            b = len(browsers)
-            lst = L(b, hosts[h].zc)
-            browsers.append({"host": h, "ty": ty, "listener": lst, "t": now()})
-            trace.append([now(), "browse", b])
+            lst = L(hosts[h].zc)
+            for ty in tys:
+                b = len(browsers)
+                lst.b_of[ty] = b
+                browsers.append({"host": h, "ty": ty, "listener": lst, "t": now(), "first": ty == tys[0]})
+                trace.append([now(), "browse", b])
             api_times.append(now())
-            browsers[b]["br"] = AsyncServiceBrowser(hosts[h].zc, [TYPES[ty]], listener=lst)
+            cases = opt.get("cases") or [opt.get("case", 0)] * len(tys)
+            for b, k in zip(sorted(lst.b_of.values()), cases):
+                browsers[b]["tcase"] = k & 1
+            real_browsers.append({"host": h, "br": AsyncServiceBrowser(hosts[h].zc, [spell_type(ty, k) for ty, k in zip(tys, cases)], listener=lst)})
             return
         if kind == "close":
             h = op[2]
@@ -537,6 +757,7 @@ def run_case(case):
             for i, s in enumerate(svcs):
                 if s["owner"] == h and sstate[i] == "registered":
                     trace.append([now(), "unreg", i])
+                    close_unregs.append([now(), i, h])
                     sstate[i] = "idle"
             trace.append([now(), "close", h])
             api_times.append(now())
@@ -587,6 +808,7 @@ def run_case(case):
                 skipped.append(op)
                 return
             trace.append([now(), "unreg", i])
+            unreg_calls.append([now(), i])
             api_times.append(now())
             sstate[i] = "idle"
             await zc.async_unregister_service(cur_info[i])
@@ -613,13 +835,13 @@ def run_case(case):
             trace.append([now(), "obs"])
             out["observations"].append({"t": now(), "final": [
                 {"b": b, "host": br["host"], "ty": br["ty"], "closed": hstate[br["host"]] != "up",
-                 "live": sorted(names[n.lower()] for n in br["listener"].live if n.lower() in names),
-                 "bad": list(br["listener"].bad)} for b, br in enumerate(browsers)]})
+                 "live": sorted(names[n.lower()] for n, bb in br["listener"].live.items() if bb == b and n.lower() in names),
+                 "bad": list(br["listener"].bad) if br["first"] else []} for b, br in enumerate(browsers)]})
         out["endT"] = now()
         out["final"] = out["observations"][-1]["final"]
         out["registered"] = [i for i in range(len(svcs)) if sstate[i] == "registered"]
         out["inflight"] = [i for i in range(len(svcs)) if sstate[i] == "registering"]
-        for br in browsers:
+        for br in real_browsers:
             if hstate[br["host"]] == "up":
                 await br["br"].async_cancel()
         for i, h in enumerate(hosts):
@@ -633,11 +855,14 @@ def run_case(case):
     out["lookups"] = lookups
     out["versions"] = versions
     out["skipped"] = skipped
+    out["unreg_calls"] = unreg_calls
+    out["close_unregs"] = close_unregs
+    out["refused"] = net.refused
     out["errors"] = [str(e.get("exception") or e.get("message"))[:200] for e in sim.errors]
     out["ndeliveries"] = net.n
     out["targets"] = net.targets
     out["dropped"] = net.dropped
-    out["browsers"] = [{"host": b["host"], "ty": b["ty"], "t": b["t"]} for b in browsers]
+    out["browsers"] = [{"host": b["host"], "ty": b["ty"], "t": b["t"], "tcase": b.get("tcase", 0)} for b in browsers]
     out["nsend"] = len(net.log)
     out["datagrams"] = [[t, src, ip, port, data.hex()] for (t, src, ip, port, data) in net.log]
     return out
@@ -1112,7 +1337,7 @@ def oracle(case, obs):
                 miss = sorted(set(want) - set(got))
                 if extra and ("x", f["b"], extra[0]) not in seen:
                     seen.add(("x", f["b"], extra[0]))
-                    cause = resurrection_cause(case, obs, extra[0])
+                    cause = resurrection_cause(case, obs, extra[0], f["host"])
                     v.append(("C07:not-removed:" + cause,
                               "browser %d on H%d still reports s%d %d ms after the last change although it is not registered (%s)"
                               % (f["b"], f["host"], extra[0], after, cause)))
@@ -1158,15 +1383,85 @@ def oracle(case, obs):
             v.append(("C07:lookup-from-added-failed" + (":" + cause if cause else ""),
                       "lookup of s%d from the Added callback at %d returned %s%s" % (s, lk["t0"], lk["ok"], " (%s)" % cause if cause else "")))
             continue
-        vs = [x for x in obs["versions"][s] if x["t"] <= lk["t1"]]
+        # "resolves the advertised host, port, TXT and addresses": the version that is advertised while the lookup runs.  A version
+        # replaced by an `update` stays acceptable for UPDATE_GRACE_MS after the update call (the three announcements of the new
+        # records leave within 450 ms, arrive within 100 ms more, and replace the cached ones: cache-flush bit); an older one is wrong
+        allv = obs["versions"][s]
+        vs = [x for k, x in enumerate(allv) if x["t"] <= lk["t1"] and (k + 1 == len(allv) or allv[k + 1]["t"] + UPDATE_GRACE_MS >= lk["t0"])]
         # addresses belong to the host name: the lookup returns the service's own addresses, possibly together with addresses that
         # other services advertised for the same host name
-        host_addrs = {ad for vv in obs["versions"] for x in vv if x["server"] == lk["server"] for ad in x["addrs"]}
+        host_addrs = {ad for vv in obs["versions"] for x in vv if x["server"].lower() == (lk["server"] or "").lower() for ad in x["addrs"]}
         if not any(x["port"] == lk["port"] and x["server"] == lk["server"] and x["txt"] == lk["txt"]
                    and set(x["addrs"]) <= set(lk["addrs"]) <= host_addrs for x in vs):
-            v.append(("C07:lookup-from-added-wrong", "lookup of s%d from the Added callback at %d resolved port %s server %s txt %s addrs %s, advertised %s"
-                      % (s, lk["t0"], lk["port"], lk["server"], lk["txt"], lk["addrs"], vs)))
+            cause = lookup_wrong_cause(case, obs, lk, vs, allv)
+            v.append(("C07:lookup-from-added-wrong" + (":" + cause if cause else ""),
+                      "lookup of s%d from the Added callback at %d (until %d) resolved port %s server %s txt %s addrs %s, advertised then %s%s"
+                      % (s, lk["t0"], lk["t1"], lk["port"], lk["server"], lk["txt"][:40], lk["addrs"],
+                         [dict(x, txt=x["txt"][:40]) for x in vs], " (%s)" % cause if cause else "")))
     return v
+
+
+UPDATE_GRACE_MS = 1000
+
+
+def records_seen(obs, host, t_hi):
+    """(t, record) for every record of every response datagram handed to `host` up to t_hi -- from the harness's own delivery
+    log and the raw datagrams, not from the implementation's cache"""
+    from zeroconf import DNSIncoming
+
+    out = []
+    memo = obs.setdefault("_parsed", {})
+    for e in obs["trace"]:
+        if e[1] == "dlv" and e[4] == host and e[0] <= t_hi:
+            recs = memo.get(e[2])
+            if recs is None:
+                m = DNSIncoming(bytes.fromhex(obs["datagrams"][e[2]][4]))
+                recs = memo[e[2]] = [] if (not m.valid or m.is_query()) else m.answers()
+            out.extend((e[0], r) for r in recs)
+    return out
+
+
+def lookup_wrong_cause(case, obs, lk, vs, allv):
+    """classify a wrong lookup result from the INPUT side (what reached the host), never from the library's state.
+
+    success-without-txt: `async_request` returned True with an empty TXT although every advertised version has a non-empty one, and
+    no unexpired TXT record of the instance had reached the host when it returned (TXT and SRV/address travelled in different
+    datagrams, or the TXT had expired before the SRV): `ServiceInfo._is_complete` tests `self.text is not None`, and `text` is
+    `b''` from the constructor on -- a lookup is "complete" as soon as it knows an address.  Everything else about the result must
+    still be right."""
+    from zeroconf._dns import DNSService, DNSText
+
+    bh = obs["browsers"][lk["b"]]["host"]
+    name = svc_name(lk["s"], case["svcs"][lk["s"]]["ty"]).lower()
+    old = [k for k, x in enumerate(allv) if x not in vs and x["t"] <= lk["t1"] and x["port"] == lk["port"] and x["server"] == lk["server"]
+           and x["txt"] == lk["txt"]]
+    if old:
+        # the result is exactly a superseded version k.  Known finding when the link reordered the update: the host was handed
+        # records of version k (still unexpired when the lookup ended) AFTER it had first been handed records of a later version
+        # (every version has its own port and TXT).  Both stay cached (RFC 6762 10.2: nothing younger than one second is flushed),
+        # later repeats of the new records refresh their entry in place, and `_load_from_cache` takes the LAST INSERTED unexpired
+        # SRV / TXT -- the overtaken old one -- instead of the most recently received
+        k = old[-1]
+        seen = records_seen(obs, bh, lk["t1"])
+
+        def ver_of(r):
+            if isinstance(r, DNSService) and r.name.lower() == name:
+                return [j for j, x in enumerate(allv) if x["port"] == r.port]
+            if isinstance(r, DNSText) and r.name.lower() == name:
+                return [j for j, x in enumerate(allv) if x["txt"] == r.text.hex()]
+            return []
+
+        first_newer = min([t for (t, r) in seen if r.ttl > 0 and any(j > k for j in ver_of(r))] or [None], key=lambda v: (v is None, v))
+        if first_newer is not None and any(r.ttl > 0 and k in ver_of(r) and t >= first_newer and t + 1000 * r.ttl > lk["t1"] for (t, r) in seen):
+            return "superseded-version-overtook-the-update-on-the-link"
+        return ""
+    if lk["txt"] == "" and all(x["txt"] for x in allv) and any(
+            x["port"] == lk["port"] and x["server"] == lk["server"] for x in vs):
+        held_txt = [(t, r) for (t, r) in records_seen(obs, bh, lk["t1"]) if isinstance(r, DNSText) and r.name.lower() == name]
+        # the last TXT handed over decides (a goodbye or an expired one leaves the host without a TXT)
+        if not held_txt or held_txt[-1][1].ttl == 0 or held_txt[-1][0] + 1000 * held_txt[-1][1].ttl <= lk["t1"]:
+            return "success-without-txt"
+    return ""
 
 
 def not_added_cause(case, obs, b, s):
@@ -1174,6 +1469,11 @@ def not_added_cause(case, obs, b, s):
     the expired record, and the answer to the browser's question finds the unpurged entry (`async_get_unique`), refreshes it and is
     reported to the browser as a refresh of a known record, never as Added"""
     br = obs["browsers"][b]
+    if br.get("tcase", 0) != case["svcs"][s].get("case", 0) & 1:
+        # known finding: `_ServiceBrowserBase` intersects its set of types, as spelled by the application, with the owner name of the
+        # pointer record as spelled on the wire -- a browser for `_a._tcp.local.` never reports an instance registered under
+        # `_A._tcp.local.` (the responder, the cache and the question history all compare case-insensitively)
+        return "type-spelled-in-another-case"
     last = None
     later = False
     for e in obs["trace"]:
@@ -1217,7 +1517,70 @@ def lookup_failure_cause(case, obs, lk):
     return ""
 
 
-def resurrection_cause(case, obs, s):
+def cut_by_close(case, obs, s, tu):
+    """the known finding, decided from the INPUT alone: service s was withdrawn at tu by an explicit `async_unregister_service` call
+    (this harness never awaits the task it returns), its host was closed at tc with tu <= tc <= tu + 250 (before the third goodbye
+    was due), and nothing was registered on the host at the close (`async_close` then has no goodbye of its own to send, so `_close`
+    sets `done` at once and the pending goodbyes of the unregister become no-ops).  Returns tc or None.  A service that is
+    withdrawn BY the close (still registered when `async_close` is called) is never covered: its goodbyes are the close's own"""
+    if [tu, s] not in [list(x) for x in obs.get("unreg_calls", [])]:
+        return None
+    owner = case["svcs"][s]["owner"]
+    for e in obs["trace"]:
+        if e[1] == "close" and e[2] == owner and tu <= e[0] <= tu + 250:
+            if not any(c[0] == e[0] and c[2] == owner for c in obs.get("close_unregs", [])):
+                return e[0]
+    return None
+
+
+def guard_suppressed(case, obs, host):
+    """the deliveries to `host` that its duplicate-packet guard ignores, recomputed from the harness's own delivery log (never from
+    the library's state): every receiving socket has its own listener object, and a listener ignores a datagram that is
+    byte-identical to the previous one IT processed less than 1000 ms ago, unless that is a query with a QU question.
+    Returns the set of positions (index into obs["trace"]) of ignored `dlv` events"""
+    from zeroconf import DNSIncoming
+
+    listen = bool(case.get("listen"))
+    last = {}  # socket -> (bytes, time)
+    out = set()
+    for i, e in enumerate(obs["trace"]):
+        if e[1] != "dlv" or e[4] != host:
+            continue
+        data = obs["datagrams"][e[2]][4]
+        fam = 6 if ":" in obs["datagrams"][e[2]][2] else 4
+        sock = "listen" if (listen and e[5]) else fam
+        prev = last.get(sock)
+        if prev is not None and prev[0] == data and e[0] - 1000 < prev[1]:
+            m = DNSIncoming(bytes.fromhex(data))
+            if not (m.is_query() and m.has_qu_question()):
+                out.add(i)
+                continue
+        last[sock] = (data, e[0])
+    return out
+
+
+def repeats_ignored_on_other_socket(case, obs, s, host):
+    """known finding, decided from the input: `host` has more than one receiving socket (a dedicated listen socket, or one per address
+    family).  After the unregister it processed a positive PTR(s) on one socket (a unicast answer on the respond socket, sent before
+    the unregister and delayed on the link) later than the first goodbye on another, and every later goodbye it was handed was a
+    verbatim repeat that the duplicate guard of the socket it arrived on ignored -- that guard's state is per socket, so it never
+    saw the answer in between.  Nothing is lost on the link; the instance stays Added until its TTL runs out"""
+    if not (case.get("listen") or case.get("stack", "4") == "46"):
+        return False
+    ignored = guard_suppressed(case, obs, host)
+    tr = obs["trace"]
+    last_pos = None
+    for i, e in enumerate(tr):
+        if e[1] == "dlv" and e[4] == host and i not in ignored and any(it[0] == "p" and it[1] == s and it[2] > 0 for it in e[6]):
+            last_pos = i
+    if last_pos is None:
+        return False
+    later_byes = [i for i, e in enumerate(tr) if i > last_pos and e[1] == "dlv" and e[4] == host
+                  and any(it[0] == "p" and it[1] == s and it[2] == 0 for it in e[6])]
+    return bool(later_byes) and all(i in ignored for i in later_byes)
+
+
+def resurrection_cause(case, obs, s, host=None):
     """attribute a never-removed service to the positive PTR sent after its withdrawal (C08's D5 / D6)"""
     tr = obs["trace"]
     unreg = [e[0] for e in tr if e[1] == "unreg" and e[2] == s]
@@ -1231,9 +1594,10 @@ def resurrection_cause(case, obs, s):
         if i > pos_unreg and e[1] == "send" and any(it[0] == "p" and it[1] == s and it[2] > 0 for it in e[5]):
             late.append(e[0])
     if not late:
-        owner = case["svcs"][s]["owner"]
-        if any(e[1] == "close" and e[2] == owner and tu <= e[0] <= tu + 250 for e in tr):
+        if cut_by_close(case, obs, s, tu) is not None:
             return "goodbyes-cut-by-close"
+        if host is not None and repeats_ignored_on_other_socket(case, obs, s, host):
+            return "goodbye-repeats-ignored-by-the-other-sockets-duplicate-guard"
         return "no-positive-ptr-after-unregister"
     if any(t - r in (575, 800) for t in late for r in regt) or any(t - u[0] in (225, 450) for t in late for u in tr if u[1] == "upd" and u[2] == s):
         return "D6-announcement-after-unregister"
@@ -1242,6 +1606,63 @@ def resurrection_cause(case, obs, s):
 
 # ------------------------------------------------------------------------------------------
 # running
+
+
+KNOWN_SIGS = {"C07:goodbyes-cut-by-close", "C07:not-removed:goodbyes-cut-by-close", "C07:lookup-from-added-wrong:success-without-txt",
+              "C07:not-added:type-spelled-in-another-case", "C07:lookup-from-added-wrong:superseded-version-overtook-the-update-on-the-link",
+              "C07:not-removed:goodbye-repeats-ignored-by-the-other-sockets-duplicate-guard"}
+
+
+def train_of(obs, t, h, dst_of=None):
+    """raw datagrams host h put on the link at instant t (to the destination of datagram `dst_of`, if given)"""
+    ds = [e for e in obs["trace"] if e[1] == "send" and e[0] == t and e[2] == h]
+    if dst_of is not None:
+        ds = [e for e in ds if e[4] == dst_of]
+    return ds
+
+
+def train_complete(case, obs, t, h, s, dst="any"):
+    """do the response datagrams host h sent at instant t (one message split by `DNSOutgoing.packets()`) together carry a positive
+    PTR of service s, its SRV, its TXT and an address record of the SRV target?"""
+    from zeroconf import DNSIncoming
+    from zeroconf._dns import DNSAddress, DNSPointer, DNSService, DNSText
+
+    name = svc_name(s, case["svcs"][s]["ty"]).lower()
+    for grp in ({e[4] for e in train_of(obs, t, h)} if dst == "any" else [dst]):
+        ptr = srv = txt = False
+        targets, addrs = set(), set()
+        for e in train_of(obs, t, h):
+            if e[4] != grp:
+                continue
+            m = DNSIncoming(bytes.fromhex(obs["datagrams"][e[3]][4]))
+            if not m.valid or m.is_query():
+                continue
+            for r in m.answers():
+                if isinstance(r, DNSPointer) and r.alias.lower() == name and r.ttl > 0:
+                    ptr = True
+                elif isinstance(r, DNSService) and r.name.lower() == name:
+                    srv = True
+                    targets.add(r.server.lower())
+                elif isinstance(r, DNSText) and r.name.lower() == name:
+                    txt = True
+                elif isinstance(r, DNSAddress):
+                    addrs.add(r.name.lower())
+        if ptr and srv and txt and targets & addrs and len([e for e in train_of(obs, t, h) if e[4] == grp]) > 1:
+            return True
+    return False
+
+
+def k4_answered_by_train(case, obs, tr, w):
+    """K4 witness [query-unanswered, a, h, s, qu]: is there, in K4's window, a message of several packets from h -- multicast, or
+    unicast to anybody if the question was QU -- that is complete for s?"""
+    _, a, h, s, qu = w
+    askers = {e[3] for e in obs["trace"] if e[1] == "dlv" and e[0] == a and e[4] == h
+              and any(it[0] == "q" and it[1] == s[1] and bool(it[3]) == bool(qu) and s[2] not in it[2] for it in e[6])}
+    for e in obs["trace"]:
+        if e[1] == "send" and e[2] == h and a - CFG["respBefore"] <= e[0] <= a + CFG["respAfter"] and (e[4] is None or (qu and e[4] in askers)):
+            if any(it[0] == "p" and it[1] == s[2] and it[2] > 0 for it in e[5]) and train_complete(case, obs, e[0], h, s[2], e[4]):
+                return True
+    return False
 
 
 def check_case(case, res, ctx, tag, lean_jobs):
@@ -1254,6 +1675,7 @@ def check_case(case, res, ctx, tag, lean_jobs):
     mon = monitors(tr, endT)
     mon_all = mon
     conc = conclusion(tr, endT)
+    conc_all = conc
     brief = {"case": case, "tag": tag}
     failed0 = sorted(k for k, w in mon.items() if w)
     for sig, what in vio:
@@ -1266,20 +1688,52 @@ def check_case(case, res, ctx, tag, lean_jobs):
         res.count("loop-errors", len(obs["errors"]))
         if len(res.notes) < 5:
             res.notes.append("loop exception handler: %s" % obs["errors"][:2])
-    # review F2 / known finding: a close less than 250 ms after an unregister drops that unregister's remaining goodbyes.  On such
-    # a run "K2: goodbye missing" is the library's behaviour, reported under its own signature, not a broken tie
-    cut = [w for w in mon["K2"] if w[0] == "goodbye-missing" and any(
-        e[1] == "close" and e[2] == w[3][0] and w[1] <= e[0] <= w[1] + 250 for e in tr)]
+    # known finding (review F2; second review, point 2: decided from the input, see `cut_by_close`): a close less than 250 ms after
+    # an un-awaited unregister with nothing else registered drops that unregister's remaining goodbyes.  Only K2 witnesses of
+    # exactly that shape -- the goodbye of an explicitly unregistered service that was due at or after such a close -- are the
+    # library's known behaviour; a missing goodbye of a service withdrawn by the close itself is a contract violation like any other
+    cut = []
+    for w in mon["K2"]:
+        if w[0] == "goodbye-missing":
+            tc = cut_by_close(case, obs, w[3][2], w[1])
+            if tc is not None and w[1] + w[2] >= tc:
+                cut.append(w)
     if cut:
         res.violate("C07:goodbyes-cut-by-close",
-                    "unregister at %d ms, close of the same host %s: the goodbye due at +%d ms is never sent (async_send is a no-op once done)"
+                    "unregister at %d ms (not awaited), close of the same host at %s with nothing else registered: the goodbye due at +%d ms is never "
+                    "sent (async_send is a no-op once done)"
                     % (cut[0][1], [e[0] for e in tr if e[1] == "close" and e[2] == cut[0][3][0]], cut[0][2]), brief)
         mon = dict(mon, K2=[w for w in mon["K2"] if w not in cut])
         res.count("goodbyes-cut-by-close")
+    # messages of more than one datagram (second review, escape 5): `full` is a per-datagram flag; a response that does not fit 1460
+    # bytes cannot carry every PTR together with its SRV / TXT / address.  K6f and K4 witnesses are dropped when the packets the
+    # host sent at the same instant to the same destination (one `async_send`) carry the missing records: complete per MESSAGE
+    if mon["K6f"] or mon["K4"]:
+        k6f = [w for w in mon["K6f"] if not train_complete(case, obs, w[1], w[2], w[3][2])]
+        k4 = [w for w in mon["K4"] if not k4_answered_by_train(case, obs, tr, w)]
+        if len(k6f) != len(mon["K6f"]) or len(k4) != len(mon["K4"]):
+            res.count("runs-with-multi-packet-messages(completeness judged per message)")
+            mon = dict(mon, K6f=k6f, K4=k4)
+    if case.get("listen") or case.get("stack", "4") == "46":
+        # a host with two receiving sockets has two listener objects, each with its own duplicate-packet guard: whether a delivery is
+        # PROCESSED depends on the socket it arrives on, which the link model (one receive path per host; an ignored verbatim repeat is
+        # a no-op, C16) cannot express.  The contracts are not judged on these runs; the property's own sentence (stage O) is
+        res.count("runs-on-hosts-with-two-listeners(stage O only)")
+        mon = {k: [] for k in mon}
+        conc = []
+    # known finding "type spelled in another case": the browser does not report (live = false) what its host's cache holds
+    k5 = [w for w in mon["K5"] if not (w[4] is False and w[3][2] < len(case["svcs"])
+                                       and obs["browsers"][w[2][2]].get("tcase", 0) != case["svcs"][w[3][2]].get("case", 0) & 1)]
+    if len(k5) != len(mon["K5"]):
+        res.count("runs-with-a-type-spelled-in-two-cases")
+        mon = dict(mon, K5=k5)
     failed = sorted(k for k, w in mon.items() if w)
     for k in failed:
         res.count("contract-violated:" + k)
-    if failed and not vio:
+    # a contract violation is "explained" (not a broken tie) only by a FRESH violation of the property on the same run; a known
+    # finding explains nothing beyond the witnesses removed above (second review, gating defect i)
+    fresh_vio = [x for x in vio if x[0] not in KNOWN_SIGS]
+    if failed and not fresh_vio:
         # the real trace breaks a hypothesis of the theorem although the property's sentence holds on it
         res.disagree("contract", brief, {"violated": {k: mon[k][:2] for k in failed}}, "K1..K7 hold")
     if not failed and conc and not vio:
@@ -1302,7 +1756,7 @@ def check_case(case, res, ctx, tag, lean_jobs):
     if len(res.samples) < 3:
         res.sample({"tag": tag, "hosts": len(case["hosts"]), "events": len(tr), "deliveries": obs["ndeliveries"], "dropped": obs["dropped"],
                     "final": [{k: f[k] for k in ("b", "host", "ty", "live")} for f in obs["final"]], "registered": obs["registered"]})
-    lean_jobs.append((brief, tr, endT, mon_all, conc))
+    lean_jobs.append((brief, tr, endT, mon_all, conc_all))
     return obs
 
 
